@@ -18,6 +18,7 @@
 (*   L a   derive a lazily (only if Unset)     -> Def                      *)
 (*   S a   derive a lazily from incomplete inputs (only if Unset) -> Stale *)
 (*   X a   reset a                             -> Unset                    *)
+(*   Z a   overwrite a with a value other than the definition's -> Stale   *)
 (*   W a   write an output attribute (no status) / P a  peek (no effect)   *)
 (*   B t   the call is broken at this point in every state (pseudo attr t); *)
 (*         the steps after it say what the call does once that is repaired *)
@@ -60,6 +61,7 @@ StD(ro, a) == <<"D", <<ro, a>>>>
 StL(ro, a) == <<"L", <<ro, a>>>>
 StS(ro, a) == <<"S", <<ro, a>>>>
 StX(ro, a) == <<"X", <<ro, a>>>>
+StZ(ro, a) == <<"Z", <<ro, a>>>>
 StW(ro, a) == <<"W", <<ro, a>>>>
 StP(ro, a) == <<"P", <<ro, a>>>>
 StB(t)     == <<"B", <<"", t>>>>
@@ -171,7 +173,11 @@ SReb(k) ==   \* stiffener._rebuild
     CASE k = "BayB1"  -> RAssert \o S1W                                                          \* bladestiff1d.py:62-113
       [] k = "BayB1b" -> RAssert \o S1W \o BaseReset \o <<StW("s", "base")>>                       \* :78-100 a NEW base Panel every time
       [] k = "BayB2"  -> RAssert \o <<StR("flange", "plyts"), StR("flange", "laminaprops"), StD("flange", "lam"),
-                                       StW("s", "dpb"), StD("base", "lam")>>          \* bladestiff2d.py:80-96
+                                       StW("s", "dpb"), StZ("base", "lam")>>          \* bladestiff2d.py:80-96
+                         \* base.lam is rebuilt here with offset -(h+hb)/2 from the CURRENT skin thickness h, whereas
+                         \* base.offset (used by base.calc_k0) was fixed at construction, when the skin panels of a bay
+                         \* defined through plyt still have plyts = [] (h = 0): two different laminates alternate in
+                         \* base.lam.  No call consumes the one written here (calc_k0 re-derives it first).
       [] k = "BayT2"  -> RAssert \o <<StR("flange", "plyts"), StR("flange", "laminaprops"), StD("flange", "lam"),
                                        StW("s", "dpb"), StR("base", "plyts"), StR("base", "laminaprops"),
                                        StD("base", "lam")>>                            \* tstiff2d.py:89-118
@@ -307,9 +313,9 @@ Under(steps, ops) ==      \* attributes under steps whose operation is in ops (s
              sub == IF s[1] \in {"I", "J"} THEN Under(s[3], ops)
                     ELSE IF s[1] = "C" THEN Under(s[5], ops) ELSE {}
          IN here \cup sub \cup Under(Tail(steps), ops)
-StatusOps == {"R", "D", "L", "S", "X", "I", "J", "C", "A"}
+StatusOps == {"R", "D", "L", "S", "X", "Z", "I", "J", "C", "A"}
 Reads(k, m)   == Under(Script(k, m), {"R"})
-Derives(k, m) == Under(Script(k, m), {"D", "L", "S", "X", "C"})
+Derives(k, m) == Under(Script(k, m), {"D", "L", "S", "X", "Z", "C"})
 Writes(k, m)  == Under(Script(k, m), {"W"})
 MayRead(k, m)  == Under(Script(k, m), {"R", "L", "S", "P", "I", "J", "C", "A"}) \cup Derives(k, m) \cup Writes(k, m)
 MayWrite(k, m) == Derives(k, m) \cup Writes(k, m)
@@ -352,6 +358,7 @@ Run(steps, st) ==
               [] op = "L" -> Run(rest, IF st.d[a] = "Unset" THEN [st EXCEPT !.d[a] = "Def"] ELSE st)
               [] op = "S" -> Run(rest, IF st.d[a] = "Unset" THEN [st EXCEPT !.d[a] = "Stale"] ELSE st)
               [] op = "X" -> Run(rest, [st EXCEPT !.d[a] = "Unset"])
+              [] op = "Z" -> Run(rest, [st EXCEPT !.d[a] = "Stale"])
               [] op \in {"W", "P"} -> Run(rest, st)
               [] op = "B" -> IF st.skip THEN Run(rest, st) ELSE [st EXCEPT !.out = "fails", !.attr = a]
               [] op = "A" -> IF ~st.skip /\ (st.d[a] = "Unset") # (st.d[s[3]] = "Unset")
